@@ -47,6 +47,8 @@ class Interp(ExprMixin, StmtMixin, CallMixin, BuiltinMixin, HeapMixin, SpecMixin
         self.trace = []             # human-readable decision labels
         self.events = []            # ghost trace of external effects (encoder calls...)
         self.bconsts = {}
+        self.bound_vars = []
+        self.in_old = False
         self.modular_used = set()
         self.bounds_hit = set()
         self.bounds_used = set()
